@@ -233,6 +233,25 @@ def x0_dest_case(rng, mode, hazard=True, trace=30, run=300, dspec="-", ispec="-"
     return Case(suite, lines, None, {"mode": mode, "hazard": hazard, "prog": prog, "regs": regs, "pokes": pokes, "d": dspec, "i": ispec})
 
 
+def reg_sweep_programs():
+    """EVERY register x1..x31 as the register of a dependency: written and then read through rs1 / rs2 / as store data /
+    as a load or jalr base at distance 1 and 2 (and at distance 3, where no interlock is due), and as a second destination
+    (WAW). Independent of the seed: a decode interlock, a bypass table or a bit mask that mishandles ONE register number
+    shows here whatever the random programs use."""
+    for r in range(1, 32):
+        t, u = (6 if r != 6 else 7), (28 if r != 28 else 29)
+        for dist in (1, 2, 3):
+            pad = [tok("addi", u, u, 0, 1)] * (dist - 1)
+            prog = [tok("addi", r, 0, 0, 21 + r)] + pad + [tok("add", t, r, 0)]                    # read through rs1
+            prog += [tok("addi", r, r, 0, 3)] + pad + [tok("sub", t, t, r)]                         # read through rs2
+            prog += [tok("lui", r, 0, 0, 4)] + pad + [tok("sw", 0, r, t, 8)]                        # store base (0x4000)
+            prog += [tok("addi", r, 0, 0, 77)] + pad + [tok("sw", 0, 2, r, 12)]                      # store data
+            prog += [tok("lui", r, 0, 0, 4)] + pad + [tok("lw", t, r, 0, 12)]                        # load base
+            prog += [tok("xori", r, t, 0, 5)] + [tok("addi", r, 0, 0, 9)] + pad + [tok("or", t, r, r)]   # WAW then read
+            prog += [tok("addi", u, u, 0, 1)]
+            yield prog, {2: DATA, t: 1000, u: 5}
+
+
 def fault_schedule_programs():
     """Every kind of run-time fault (load / store at an illegal or crossing address, invalid ecall code) placed in every
     pipeline situation: alone, behind a producer it depends on or not, in front of a consumer of its result or of an older
